@@ -267,9 +267,10 @@ def Editor.justifyOpts (ed : Editor α) (width : Int) (o : Options α) : R (Edit
       let se : Int := gLen cx sepEnd
       pure [if se > 0 then gSub cx text ss (-se) else gSub cx text ss (gLen cx text)]) o
   else do
+    let originalOpts := ed.opts
     let ed ← if !o.justifyLast then (ed.withOpts o).linesTo cx (-1) else pure ed
     let ed ← ed.applyOptsM cx (fun _ line => do pure [← justifyLine cx line width]) o
-    if !o.justifyLast then ed.commit cx else pure ed
+    if !o.justifyLast then pure ((← ed.commit cx).withOpts originalOpts) else pure ed
 
 /-- Editor.InsertDefinitionsTableOpts -/
 def Editor.insertDefTableOpts (ed : Editor α) (pos : Int) (defs : List (List α × List α))
